@@ -41,6 +41,46 @@ def _selected(lst):
     return [c for c in CODES if c in run]
 
 
+MAPPED = ["AAA", "BBB"]          # CCC is a table country that the low-resolution map does not have (like BHR, BRB, CPV, MUS, SGP, MLT in the shipped data)
+
+
+class _World:
+    """stands for the geopandas map table; the REAL fill_data_for_map runs against it: world["iso_a3"].apply(f), world[mask] (len, .index), world.loc[index, column] = value"""
+
+    def __init__(self):
+        self.iso = list(MAPPED) + ["-99"]
+        self.name = np.array(["Aland", "Bland", "France"])
+        self.needs = {}
+        outer = self
+
+        class Loc:
+            def __setitem__(self, key, value):
+                idx, col = key
+                if col == "iso_a3":
+                    for i, b in enumerate(idx):
+                        if b:
+                            outer.iso[i] = value
+                else:
+                    for i in idx:
+                        outer.needs.setdefault(col, {})[i] = value
+        self.loc = Loc()
+
+    def __getitem__(self, key):
+        if isinstance(key, str):
+            vals = list(self.iso)
+            return types.SimpleNamespace(apply=lambda f: [f(x) for x in vals])
+        rows = [i for i, b in enumerate(key) if b]
+        return _Rows(rows)
+
+
+class _Rows:
+    def __init__(self, rows):
+        self.index = rows
+
+    def __len__(self):
+        return len(self.index)
+
+
 class _Table:
     """stands for the pandas table: iterrows() yields (index, row) with row[...] access"""
 
@@ -62,21 +102,10 @@ def _run(rm, pops, ratios, sel):
         def verify_country_data(self, country_data):
             return None
 
-        def fill_data_for_map(self, world, country_code, needs_ratio):
-            return None
-
         def run_optimizer_for_country(self, country_data, *a, **k):
             calls.append(country_data["iso3"])
             return ratios[country_data["iso3"]], "stub", "result of " + country_data["iso3"]
-    world = types.SimpleNamespace(loc=types.SimpleNamespace(__setitem__=lambda *a: None), name="x")
-
-    class W:
-        name = np.array(["France"])
-
-        class L:
-            def __setitem__(self, k, v):
-                pass
-        loc = L()
+    W = lambda: _World()
     fake_pd = types.SimpleNamespace(read_csv=lambda *a, **k: _Table(rows), DataFrame=pd.DataFrame)
     fake_gpd = types.SimpleNamespace(read_file=lambda *a, **k: W(), datasets=types.SimpleNamespace(get_path=lambda n: n))
     ident = lambda x, *a: x if isinstance(x, SymReal) else float(x)
@@ -112,6 +141,9 @@ def worker_aggregate(case, seed):
             r = ratios[c]
             capped.append(pops[c] * (r if (r <= 1) else 1))
         E.check("people fed = sum of population x min(1, fraction fed)", net_fed == zsum(capped))
+        shown = world.needs.get("needs_ratio", {})
+        E.check("the map shows min(1, fraction fed) for exactly the selected countries it has", sorted(shown.keys()) == sorted(MAPPED.index(c) for c in chosen if c in MAPPED)
+                and conj([sb(shown[MAPPED.index(c)] == (ratios[c] if (ratios[c] <= 1) else 1)) for c in chosen if c in MAPPED]))
         E.check("0 <= people fed <= population (aggregate fraction within [0, 1])", conj([sb(net_fed >= 0), sb(net_fed <= net_pop)]))
         E.check("the caller's selection list is not modified", list(sel) == before)
     E.explore(h)
@@ -173,9 +205,9 @@ def main(tier, seed, only=None):
     if not thorough:
         sels = [s for s in sels if len(s) <= 2] + [["AAA", "BBB", "CCC"], ["!AAA", "!BBB", "!CCC"], ["AAA", "!BBB", "CCC"], ["!AAA", "AAA", "!CCC"], ["BBB", "BBB", "BBB"], ["!CCC", "!CCC", "AAA"]]
     groups = [dict(name="aggregate_over_selection", fn="worker_aggregate", cases=[dict(sel=s) for s in sels], replay=replay_aggregate,
-                   functions=["ScenarioRunnerNoTrade.run_model_no_trade", "get_countries_to_run_and_skip"], bounds="3-row table; %d selection lists over {A,B,C,!A,!B,!C} (all lists of <= 2 entries, thorough all of <= 3)" % len(sels),
+                   functions=["ScenarioRunnerNoTrade.run_model_no_trade", "get_countries_to_run_and_skip", "fill_data_for_map"], bounds="3-row table; %d selection lists over {A,B,C,!A,!B,!C} (all lists of <= 2 entries, thorough all of <= 3)" % len(sels),
                    symbolic="the three populations (10^4..10^10) and the three per-country fed ratios (0..50)", assumptions=["per-country data checks pass (stubbed)", "the per-country optimiser returns a finite ratio"],
-                   stubs=STUBS[:2] + ["pd.read_csv -> 3-row table object", "gpd.read_file -> stub", "verify_country_data / apply_custom_parameters / fill_data_for_map -> no-ops", "run_optimizer_for_country -> symbolic ratio",
+                   stubs=STUBS[:2] + ["pd.read_csv -> 3-row table object", "gpd.read_file -> stub", "verify_country_data / apply_custom_parameters -> no-ops", "the map table is a 3-row stand-in (two of the three countries are on the map, one is not); the real fill_data_for_map runs against it", "run_optimizer_for_country -> symbolic ratio",
                                       "float()/round() in run_model_no_trade shadowed to keep symbolic values (only the printed fraction uses them)"], outside=["the real 164-row table", "NaN ratios (error path)"])]
     vlib.run_groups(rep, MOD, groups, seed, only)
     return rep.finish()
